@@ -480,6 +480,53 @@ theorem C09_adjacency_wraps_witness :
   exact ⟨h1, h2, h3, C09_adjacency_wraps wrapNodes wrapEdges h1 (fun e he => (h3 e he).2) 0 1
     (by decide +kernel) (by decide +kernel) (by decide) (by decide +kernel)⟩
 
+/-- **Only the current content matters (histories).**  A history of edits (removals, re-insertions) changes the
+ORDER in which `get_nodes()` lists the nodes; every matrix and every mapping is the same for two listings of the
+same node set (and the same hyperedge listing).  No hypothesis beyond `Perm`. -/
+theorem C09_node_listing_irrelevant {R : Type} [CommRing R] [DecidableEq R] (nodes nodes' : List Nat)
+    (es : List (Edge × R)) (h : nodes.Perm nodes') :
+    mapping nodes = mapping nodes'
+    ∧ (binInc nodes (es.map (·.1)) : List (List R)) = binInc nodes' (es.map (·.1))
+    ∧ inc nodes es = inc nodes' es
+    ∧ (adj nodes (es.map (·.1)) : List (List R)) = adj nodes' (es.map (·.1))
+    ∧ (dual nodes (es.map (·.1)) : List (List R)) = dual nodes' (es.map (·.1))
+    ∧ (∀ d k, incByOrder d k nodes es = incByOrder d k nodes' es
+          ∧ mappingByOrder d k nodes es = mappingByOrder d k nodes' es)
+    ∧ (∀ d, adjByOrder d nodes es = adjByOrder d nodes' es
+          ∧ degMatrix d nodes es = degMatrix d nodes' es
+          ∧ laplacian d nodes es = laplacian d nodes' es) := by
+  have hc := classes_perm_congr nodes nodes' h
+  have hl : nodes.length = nodes'.length := h.length_eq
+  have hB : ∀ edges : List Edge, (binInc nodes edges : List (List R)) = binInc nodes' edges := by
+    intro edges; simp only [binInc, hc, hl]
+  have hI : ∀ es' : List (Edge × R), inc nodes es' = inc nodes' es' := by
+    intro es'; simp only [inc, hB]
+  have hM : mapping nodes = mapping nodes' := by simp only [mapping, hc]
+  have hO : ∀ d k, incByOrder d k nodes es = incByOrder d k nodes' es
+      ∧ mappingByOrder d k nodes es = mappingByOrder d k nodes' es := by
+    intro d k
+    cases k
+    · exact ⟨rfl, rfl⟩
+    · simp only [incByOrder, mappingByOrder, subNodes, if_true, hI, hM, and_self]
+  refine ⟨hM, hB _, hI es, by simp only [adj, hB], by simp only [dual, hB], hO, ?_⟩
+  intro d
+  have hd : degMatrix d nodes es = degMatrix d nodes' es := by simp only [degMatrix, hM]
+  refine ⟨by simp only [adjByOrder, (hO d true).1], hd, by simp only [laplacian, (hO d true).1, hd]⟩
+
+/-- **The mapping follows the node SET, not the node COUNT.**  For duplicate-free node listings two mappings are
+equal exactly when the listings hold the same nodes: a mapping computed for an earlier node set of the same size
+(a stale cache after "remove one node, add another") is never the mapping of the current hypergraph. -/
+theorem C09_mapping_tracks_nodes (nodes nodes' : List Nat) (hN : nodes.Nodup) (hN' : nodes'.Nodup) :
+    mapping nodes = mapping nodes' ↔ nodes.Perm nodes' := by
+  constructor
+  · intro h
+    have h1 := (C09_mapping_bij nodes hN).2.1
+    have h2 := (C09_mapping_bij nodes' hN').2.1
+    rw [h] at h1
+    exact h1.symm.trans h2
+  · intro h
+    simp only [mapping, classes_perm_congr nodes nodes' h]
+
 /-! ## non-vacuity: every theorem instantiated on a concrete hypergraph with labels that are not `0..N-1`,
 an isolated node (50), overlapping hyperedges of orders 1 and 2 -/
 
@@ -545,3 +592,11 @@ example : entry (binInc (α := Int) exN exE) 3 2 = some 1 :=
   (C09_incidence_iff exN exE (by decide) (by decide) 3 2 (by decide) (by decide)).2 (by decide)
 example : entry (dual (α := Int) exN exE) 1 3 = some 1 :=
   (C09_dual_iff exN exE (by decide) (by decide) 1 3 (by decide) (by decide)).2 ⟨20, by decide, by decide⟩
+
+example : mapping [10, 30, 20] = mapping [20, 10, 30] :=
+  (C09_node_listing_irrelevant (R := Int) [10, 30, 20] [20, 10, 30] [] (by decide)).1
+example : adj (α := Int) [50, 7, 30, 10, 20] exE = adj exN exE :=
+  (C09_node_listing_irrelevant (R := Int) [50, 7, 30, 10, 20] exN exW (by decide)).2.2.2.1
+example : [10, 20, 30].length = [10, 20, 40].length ∧ mapping [10, 20, 30] ≠ mapping [10, 20, 40] := by decide
+example : ¬ ([10, 20, 30] : List Nat).Perm [10, 20, 40] :=
+  fun h => absurd ((C09_mapping_tracks_nodes _ _ (by decide) (by decide)).2 h) (by decide)
